@@ -152,6 +152,11 @@ Section Eval.
     end.
   Definition lookup_helper := lookup_helper_in helper_table.
 
+  (* subjectHelpers: the helpers that work on the value selected by the path *)
+  Definition subject_helper (name : bytes) : bool :=
+    existsb (bytes_eqb name) [n_startsWith; n_endsWith; n_contains; n_json; n_xml].
+  Definition no_match (l : list jv) : bool := match l with [] => true | _ => false end.
+
   (* ---------------------------------------------------------------- evalUnary's operators *)
   Definition apply_unary (op : uop) (v : val) : val :=
     match op with
@@ -207,7 +212,7 @@ Section Eval.
                     | (EvVal nx o2, st2) =>
                         match logical_op op with
                         | Some f => Ok (EvVal (vbool (f unar nx)) o2, st2)
-                        | None => Panic 886
+                        | None => Panic 900
                         end
                     end
                 end
@@ -231,7 +236,7 @@ Section Eval.
                 | (EvVal nx o2, st2) =>
                     match equality_op parse_float re_match op with
                     | Some f => Ok (EvVal (vbool (f comp nx)) o2, st2)
-                    | None => Panic 853
+                    | None => Panic 867
                     end
                 end
             end
@@ -254,7 +259,7 @@ Section Eval.
                 | (EvVal nx o2, st2) =>
                     match comparison_op parse_float op with
                     | Some f => Ok (EvVal (vbool (f logic nx)) o2, st2)
-                    | None => Panic 830
+                    | None => Panic 844
                     end
                 end
             end
@@ -297,9 +302,11 @@ Section Eval.
                     let '(pvals, st1) := r in
                     match lookup_helper h with
                     | Some hf =>
-                        let* hr := hf (VJ st :: v :: pvals) st1 in
-                        let '(o, v', st2) := hr in
-                        Ok (EvVal v' o, st2)
+                        if no_match result && subject_helper h then Ok (EvVal vfalse ORef, st1)
+                        else
+                          let* hr := hf (VJ st :: v :: pvals) st1 in
+                          let '(o, v', st2) := hr in
+                          Ok (EvVal v' o, st2)
                     | None => Ok (EvCollapse ORef, st1)
                     end
                 | _, _ => Ok (EvVal v ORef, st)
@@ -363,7 +370,7 @@ Section Eval.
                      | (EvVal v _, st1) => Ok (v, st1)
                      | (EvCollapse _, st1) => Ok (vfalse, st1)      (* unreachable: eval_expr never collapses *)
                      end
-                 | ExNone => Panic 692                               (* expr.Logical on a nil *Expression *)
+                 | ExNone => Panic 701                               (* expr.Logical on a nil *Expression *)
                  end
         end
     end.
